@@ -526,6 +526,111 @@ def run(run):
     except Unsupported as e:
         ob.inconclusive(str(e))
 
+    # ---- statements whose own parser must leave the terminating newline / the end of the block to parse_statements
+    def variants_replay(what, groups):
+        """groups: {name: [variants of one program that differ in trivia only]} - all variants of a group must get the same verdict and output."""
+        def f(model):
+            bad = []
+            for nm, variants in groups.items():
+                res = []
+                for v in variants:
+                    st_, out = rp.transpile(v)
+                    res.append((st_, [l.rstrip() for l in out.split("\n") if l.strip() and not l.strip().startswith("#")] if st_ == "OK" else None))
+                if any(r != res[0] for r in res[1:]):
+                    i = next(i for i, r in enumerate(res) if r != res[0])
+                    bad.append((nm, f"{variants[0]!r} -> {res[0][0]} but {variants[i]!r} -> {res[i][0]}"))
+            if bad:
+                return {"reproduced": True, "role": f"{what}:" + "+".join(b[0] for b in bad), "detail": bad[0][1]}
+            return {"reproduced": False, "detail": f"{sum(len(v) for v in groups.values())} variants in {len(groups)} groups agree"}
+        return f
+
+    def tokarg_of(exx, p, e_, i=1):
+        a = e_["args"][i] if len(e_["args"]) > i else None
+        return exx.read_ref(p.state, a) if isinstance(a, Ref) else a
+
+    ob = run.ob("return-leaves-newline", "E2", "parse_return: an empty `return` is recognised by LOOKING at the next token (newline, dedent, end of input) - the newline "
+                "that ends the statement is not consumed, so the statement after `return` needs no blank line in between", ["parse_return"])
+    try:
+        fnr = e2.find1(mir, file="src/parse/statement.rs", name="parse_return")
+        exr = Exec(mir, max_paths=5000)
+        str_ = State()
+        endsr = e2.run_kernel(run, exr, fnr, [Ref(exr.new_cell(str_, Opq(z3.Const("it", Val), "LexIterator")))], str_)
+        clr, nr = [], 0
+        for p in endsr:
+            if result_kind(p) != "Ok":
+                continue
+            node_empty = "ReturnEmpty" in str(exr.to_val(p.state, p.ret))
+            if not node_empty:
+                continue
+            nr += 1
+            eats = [e_ for e_ in p.events if e_["name"] in ("LexIterator::eat", "LexIterator::eat_if", "LexIterator::eat_while") and
+                    getattr(tokarg_of(exr, p, e_), "variant", None) == "NL"]
+            clr.append(z3.Implies(conj(p.cond), z3.BoolVal(not eats)))
+        if not nr:
+            raise Unsupported("no path builds ReturnEmpty")
+        rr = variants_replay("return-newline", {
+            "return-then-statement": ["def f(x: Int) =>\n    return\n\n    print(x)\nf(1)\n", "def f(x: Int) =>\n    return\n    print(x)\nf(1)\n"],
+            "return-in-branch-then-statement": ["def f(x: Int) =>\n    if x > 0 then\n        return\n\n    print(x)\nf(0)\n", "def f(x: Int) =>\n    if x > 0 then\n        return\n    print(x)\nf(0)\n"],
+            "return-last": ["def f(x: Int) =>\n    print(x)\n    return\nf(1)\n", "def f(x: Int) =>\n    print(x)\n    return\n\nf(1)\n", "def f(x: Int) =>\n    print(x)\n    return\nf(1)"]})
+        e2.prove_each(run, ob, exr, [], clr, {}, rr)
+        if ob.status == "discharged":
+            r_ = rr({})
+            run.validated += 7
+            if r_["reproduced"]:
+                ob.status = "pending"
+                ob.inconclusive("variants still disagree although the kernel is as specified: " + r_["detail"][:300])
+    except Unsupported as e:
+        ob.inconclusive(str(e))
+
+    ob = run.ob("import-stops-at-block-end", "E2", "parse_import: the loops over the imported names and over the aliases stop at a newline AND at the end of the enclosing "
+                "block or of the input (Dedent, Eof) - an import as the last statement of an indented block needs no further line behind it", ["parse_import"])
+    try:
+        fni_ = e2.find1(mir, file="src/parse/statement.rs", name="parse_import")
+        exi_ = Exec(mir, max_paths=5000)
+        sti_ = State()
+        endsi_ = e2.run_kernel(run, exi_, fni_, [Ref(exi_.new_cell(sti_, Opq(z3.Const("it", Val), "LexIterator")))], sti_)
+        cli_, ni_ = [], 0
+        for p in endsi_:
+            for e_ in p.events:
+                if e_["name"] not in ("LexIterator::peek_while_not_tokens", "LexIterator::peek_while_not_token"):
+                    continue
+                ni_ += 1
+                a = tokarg_of(exi_, p, e_)
+                toks = set()
+                if isinstance(a, Agg) and a.variant:
+                    toks = {a.variant}
+                elif isinstance(a, (Seq, Agg)):
+                    items = [x[1] for x in a.parts if x[0] == "item"] if isinstance(a, Seq) else list(a.fields)
+                    toks = {getattr(exi_.read_ref(p.state, x) if isinstance(x, Ref) else x, "variant", "?") for x in items}
+                cli_.append(z3.Implies(conj(p.cond), z3.BoolVal({"NL", "Dedent", "Eof"} <= toks)))
+        if ni_ < 2:
+            raise Unsupported(f"{ni_} name loops found in parse_import")
+        ri = variants_replay("import-block-end", {
+            "import-last-in-block": ["def f() =>\n    import math\n    print(1)\n", "def f() =>\n    import math\n# c\n", "def f() =>\n    import math\n", "def f() =>\n    import math"],
+            "import-as-last-in-block": ["def f() =>\n    import math as m\n# c\n", "def f() =>\n    import math as m\n", "def f() =>\n    import math as m"],
+            "import-top-level": ["import math\n", "import math", "import math\n\n"]})
+        # the first group's first variant has one more statement: compare verdicts only
+        def ri_verdicts(model):
+            bad = []
+            for nm, vs in (("import-last-in-block", ["def f() =>\n    import math\n# c\n", "def f() =>\n    import math\n", "def f() =>\n    import math"]),
+                           ("import-as-last-in-block", ["def f() =>\n    import math as m\n# c\n", "def f() =>\n    import math as m\n", "def f() =>\n    import math as m"]),
+                           ("import-top-level", ["import math\n", "import math", "import math\n\n"])):
+                vs_ = [rp.transpile(v)[0] for v in vs]
+                if len(set(vs_)) > 1:
+                    bad.append((nm, f"{vs!r} -> {vs_}"))
+            if bad:
+                return {"reproduced": True, "role": "import-block-end:" + "+".join(b[0] for b in bad), "detail": bad[0][1]}
+            return {"reproduced": False, "detail": "9 variants in 3 groups get the same verdict"}
+        e2.prove_each(run, ob, exi_, [], cli_, {}, ri_verdicts)
+        if ob.status == "discharged":
+            r_ = ri_verdicts({})
+            run.validated += 9
+            if r_["reproduced"]:
+                ob.status = "pending"
+                ob.inconclusive("variants still disagree although the kernel is as specified: " + r_["detail"][:300])
+    except Unsupported as e:
+        ob.inconclusive(str(e))
+
     ob = run.ob("statements-skip-newline-runs", "E2", "parse_statements (file level and inside blocks): a newline token between statements is "
                 "eaten and nothing else happens (no statement is recorded, no error) - so any number of blank or comment lines between two "
                 "statements is invisible; a statement must be followed by a newline, a dedent or the end of input", ["parse_statements::{closure}"])
